@@ -69,8 +69,8 @@ prop('C16', 'p32', 'exploration',
 SER_ASSUME = COMMON_ASSUME + ['the independent portable/frozen codecs (harness/spec) are a correct reading of the format texts; they reproduce the Java/C golden files byte for byte (anchor tests run before every check)']
 
 prop('C05', 'pser', 'fault_enumeration',
-     'rapid draws history-dependent bitmaps (spec x form, then 0-6 mutations / algebra steps; 0..300 chunks) x entry point {ReadFrom with a generated reader chunking incl. 1 byte at a time (one time in four with the 4-byte cookie passed separately, also via MustReadFrom), FromBuffer, FromUnsafeBytes, UnmarshalBinary, FromBase64} x receiver {fresh, reused built, reused zero-copy, copy-on-write on} x trailing garbage; '
-     'checks writer agreement, byte accounting, exact consumption, Equals, that the copying entry points do not keep the bytes of the caller (they are overwritten afterwards), post-decode operation history vs model; then ENUMERATES writer failure offsets (every offset when the stream is <=4096 bytes, else section boundaries +-1 and 128 random) in two failure modes. '
+     'rapid draws history-dependent bitmaps (spec x form, then 0-6 mutations / algebra steps; 0..300 chunks) x entry point {ReadFrom with a generated reader chunking incl. 1 byte at a time (one time in four with the 4-byte cookie passed separately, also via MustReadFrom; one time in three through *bytes.Buffer / *bytes.Reader over the slice of the caller), FromBuffer, FromUnsafeBytes, UnmarshalBinary, FromBase64} x receiver {fresh, reused built, reused zero-copy, copy-on-write on} x trailing garbage; '
+     'checks writer agreement, byte accounting, exact consumption, Equals, that the copying entry points do not keep the bytes of the caller (they are overwritten afterwards), post-decode operation history vs model; then ENUMERATES writer failure offsets (every offset when the stream is <=4096 bytes, else section boundaries +-1 and 128 random) in three failure modes (nothing / the fitting part / everything written together with the error). '
      'Non-trivial = >=1 chunk and (reused receiver or a non-trivial reader chunking); distinct = FNV-64 of (history, entry, chunking, receiver). The regression tests add the empty bitmap, 65536 chunks, and an exhaustive small-scope sweep of reused receivers (26 previous sizes x 4 growth histories x every stream size up to 2R+8 x 5 entry points).',
      T(4, 600, 16, 8000),
      'property-based round-trip testing + exhaustive writer-fault enumeration per generated stream',
@@ -95,7 +95,7 @@ prop('C13', 'pser', 'exploration',
      'trusted: my reading of the CRoaring frozen layout comment, anchored on testfrozendata/*', SER_ASSUME)
 
 POOL_RULES = ('rapid state machine over a pool of <=6 live bitmaps, each with its own model: rules new (any spec/form, optionally on the keys of an existing member), Clone, static And/Or/Xor/AndNot, static Flip, AddOffset64, FastOr/HeapOr/HeapXor/FastAnd/ParOr/ParHeapOr/ParAnd over lists drawn from the pool (duplicates, empties, worker counts 0..7), '
-              'in-place And/Or/Xor/AndNot (incl. self), AndAny, point/range/bulk mutations aimed at chunk keys that several members have in common, SetCopyOnWrite (never on zero-copy lineage), RunOptimize, CloneCopyOnWriteContainers; constructive rules aimed at representation maintenance: trimRuns, andRange, comb, cowClone, dropChunks, andNotOwnPrefix, cutLongRun (range/flip ending exactly behind the longest interval of a run chunk), tinyRanges (1-14 ranges of 1-4 values, one per chunk), addManyComb (one AddMany of up to 3000 isolated values), reAddRange (AddRange over what is already there), landOnThreshold (shrink a chunk to exactly 4095/4096/4097 values by range removal, point removals, AndNot/Xor with an array-sized mask), orRunPair / orInterleavedSparse (two run-efficient run chunks whose union is not); point mutations also through CheckedAdd/CheckedRemove/AddInt')
+              'in-place And/Or/Xor/AndNot (incl. self), AndAny, point/range/bulk mutations aimed at chunk keys that several members have in common, SetCopyOnWrite (never on zero-copy lineage), RunOptimize, CloneCopyOnWriteContainers; constructive rules aimed at representation maintenance: trimRuns, andRange, comb, cowClone, dropChunks, andNotOwnPrefix, cutLongRun (range/flip ending exactly behind the longest interval of a run chunk), tinyRanges (1-14 ranges of 1-4 values, one per chunk), addManyComb (one AddMany of up to 3000 isolated values), reAddRange (AddRange over what is already there), landOnThreshold (shrink a chunk to exactly 4095/4096/4097 values by range removal, point removals, AndNot/Xor with an array-sized mask), orRunPair / orInterleavedSparse (two run-efficient run chunks whose union is not); point mutations also through CheckedAdd/CheckedRemove/AddInt; fromDense (a new member from a bit vector with a partial trailing chunk)')
 
 prop('C07', 'p32', 'exploration',
      POOL_RULES + '. Invariant after EVERY step: every pool member equals its own model (so interference in any direction is caught where it happens), the caller\'s argument slice is unchanged, no function returns one of its inputs, '
